@@ -263,6 +263,7 @@ class RSeq:
         self._cur_taint = None
         self._reads = None
         self.step_no = 0
+        self.step_starts = []         # (phase, persistent store) at the start of every step
 
     # ---- user function wrapper: call log + fault injection
     def _wrap_user(self, name, f):
@@ -452,6 +453,7 @@ class RSeq:
         ph = self.phases[name]
         self.cur_phase = name
         self.next_phase = ph["next"]
+        self.step_starts.append((name, self.persistent()))
         self.step_writes.append({})
         outcome = "completed"
         try:
